@@ -5,6 +5,9 @@ use metrics_exporter_dogstatsd::{AggregationMode, DogStatsDBuilder};
 use std::io::Read;
 use std::sync::Mutex;
 use std::time::{Duration, Instant};
+use std::collections::BTreeMap;
+use std::sync::atomic::Ordering;
+use std::sync::Arc;
 use vcore::driver::{self, CheckDef, Ctx, PartResult, PartSpec};
 use vcore::json;
 use vcore::statsd::{self, Msg};
@@ -927,9 +930,110 @@ fn stalled_agent_part(ctx: &Ctx, res: &mut PartResult) {
     res.sample(json!({"history": "70000 values recorded into a sampling reservoir of 65536 (one ~650 KB message per flush); agent accepts and stalls 1.2 s (write timeout 100 ms); 70000 more values; agent reads all connections", "expected": "every stream = whole well-formed frames; a cut-off frame only at the end of a closed stream"}));
 }
 
+/// E4, flush cadence: a flush interval far shorter than it takes to send everything one flush produces (1 ms, 150
+/// counters and 20 histograms updated in bursts) over the lossless datagram transport: whatever the forwarder's pacing
+/// does, what the agent receives adds up — every counter's deltas to its increments, every histogram's values to the
+/// values recorded.
+fn short_interval_part(ctx: &Ctx, res: &mut PartResult) {
+    res.engine = "E4 scripted history: flush interval of 1 ms against 170 metrics updated in bursts, unixgram transport".into();
+    res.executions = 1;
+    let path = ctx.run_dir().join(format!("c10-cadence-{}.sock", std::process::id()));
+    let _ = std::fs::remove_file(&path);
+    let sock = match std::os::unix::net::UnixDatagram::bind(&path) {
+        Ok(s) => s,
+        Err(e) => {
+            res.error = Some(format!("bind: {}", e));
+            return;
+        }
+    };
+    sock.set_read_timeout(Some(Duration::from_millis(50))).unwrap();
+    let rec = match DogStatsDBuilder::default().with_remote_address(format!("unixgram://{}", path.display())).map(|b| b.with_flush_interval(Duration::from_millis(1)).with_telemetry(false).send_histograms_as_distributions(true)).and_then(|b| b.build()) {
+        Ok(r) => r,
+        Err(e) => {
+            res.error = Some(format!("build: {}", e));
+            return;
+        }
+    };
+    const NC: usize = 150;
+    const NH: usize = 20;
+    const BURSTS: u64 = 5;
+    let done = Arc::new(std::sync::atomic::AtomicBool::new(false));
+    let done2 = done.clone();
+    let agent = std::thread::spawn(move || {
+        let mut csum: BTreeMap<String, u128> = BTreeMap::new();
+        let mut hcnt: BTreeMap<String, usize> = BTreeMap::new();
+        let mut bad: Option<String> = None;
+        let mut msgs = 0usize;
+        let mut quiet_since = Instant::now();
+        let mut buf = vec![0u8; 65536];
+        loop {
+            match sock.recv(&mut buf) {
+                Ok(n) => {
+                    quiet_since = Instant::now();
+                    for line in buf[..n].split(|b| *b == b'\n').filter(|l| !l.is_empty()) {
+                        let mut l = line.to_vec();
+                        l.push(b'\n');
+                        match statsd::parse_message(&l) {
+                            Ok(m) => {
+                                msgs += 1;
+                                if m.ty == 'c' {
+                                    *csum.entry(m.name.clone()).or_insert(0) += m.values[0].parse::<u128>().unwrap_or(u128::MAX / 4);
+                                } else if m.ty == 'd' {
+                                    *hcnt.entry(m.name.clone()).or_insert(0) += m.values.len();
+                                }
+                            }
+                            Err(e) => bad = Some(format!("{} in {:?}", e, String::from_utf8_lossy(&l))),
+                        }
+                    }
+                }
+                Err(_) => {
+                    if done2.load(Ordering::SeqCst) && quiet_since.elapsed() > Duration::from_millis(2500) {
+                        break;
+                    }
+                }
+            }
+        }
+        (csum, hcnt, bad, msgs)
+    });
+    let cs: Vec<metrics::Counter> = (0..NC).map(|i| rec.register_counter(&Key::from_name(format!("cad_c{}", i)), &META)).collect();
+    let hs: Vec<metrics::Histogram> = (0..NH).map(|i| rec.register_histogram(&Key::from_name(format!("cad_h{}", i)), &META)).collect();
+    for b in 0..BURSTS {
+        for c in &cs {
+            c.increment(b + 1);
+        }
+        for h in &hs {
+            h.record(b as f64 + 0.5);
+            h.record(b as f64 + 1.5);
+        }
+        res.transitions += 1;
+        std::thread::sleep(Duration::from_millis(30));
+    }
+    std::thread::sleep(Duration::from_millis(300));
+    done.store(true, Ordering::SeqCst);
+    let (csum, hcnt, bad, msgs) = agent.join().unwrap();
+    drop(rec);
+    let _ = std::fs::remove_file(&path);
+    let cfg = json!({"cadence": true});
+    if let Some(b) = bad {
+        res.violation("malformed-payload", b, cfg.clone());
+    }
+    let want_c: u128 = (1..=BURSTS as u128).sum();
+    let bad_c: Vec<String> = (0..NC).map(|i| format!("cad_c{}", i)).filter(|n| csum.get(n).copied().unwrap_or(0) != want_c).collect();
+    let bad_h: Vec<String> = (0..NH).map(|i| format!("cad_h{}", i)).filter(|n| hcnt.get(n).copied().unwrap_or(0) != 2 * BURSTS as usize).collect();
+    if !bad_c.is_empty() {
+        res.violation("counter-deltas-do-not-add-up", format!("flush interval 1 ms, {} messages received: the deltas of {} of {} counters do not add up to the {} incremented (e.g. {}: {:?})", msgs, bad_c.len(), NC, want_c, bad_c[0], csum.get(&bad_c[0])), cfg.clone());
+    }
+    if !bad_h.is_empty() {
+        res.violation("histogram-value-not-sent-exactly-once", format!("flush interval 1 ms, {} messages received: {} of {} histograms did not get their {} values through (e.g. {}: {:?})", msgs, bad_h.len(), NH, 2 * BURSTS, bad_h[0], hcnt.get(&bad_h[0])), cfg);
+    }
+    res.states = 1;
+    res.distinct_outcomes = 1;
+    res.sample(json!({"history": "5 bursts over 150 counters and 20 histograms, flush every 1 ms, unixgram", "expected": "all deltas and values add up at the agent"}));
+}
+
 fn parts(ctx: &Ctx) -> Vec<PartSpec> {
     let e1 = |s: &str, pb: u64| PartSpec::new(&format!("e1-{}-pb{}", s, pb), json!({"e1": s, "pb": pb})).cpus("0");
-    let mut v = vec![PartSpec::new("e4-sockets", json!({"e4": true})).budget(120.0), PartSpec::new("e3-sampling-on", json!({"sampling": true})), PartSpec::new("e4-stalled-agent", json!({"stalled": true})).budget(120.0)];
+    let mut v = vec![PartSpec::new("e4-sockets", json!({"e4": true})).budget(120.0), PartSpec::new("e3-sampling-on", json!({"sampling": true})), PartSpec::new("e4-stalled-agent", json!({"stalled": true})).budget(120.0), PartSpec::new("e4-short-flush-interval", json!({"cadence": true})).budget(120.0)];
     let d = if ctx.quick() { 5 } else { 7 };
     v.push(PartSpec::new(&format!("e3-seq-d{}-conservative-dist", d), json!({"seq": d, "aggressive": false, "as_dist": true})).budget(if ctx.quick() { 150.0 } else { 2400.0 }));
     v.push(PartSpec::new(&format!("e3-seq-d{}-aggressive-hist", d - 1), json!({"seq": d - 1, "aggressive": true, "as_dist": false})).budget(if ctx.quick() { 150.0 } else { 2400.0 }));
@@ -945,6 +1049,10 @@ fn run(ctx: &Ctx, spec: &PartSpec) -> PartResult {
     let mut res = PartResult::new(&spec.name, "");
     if spec.arg["e4"].as_bool() == Some(true) {
         e4(ctx, &mut res);
+        return res;
+    }
+    if spec.arg["cadence"].as_bool() == Some(true) {
+        short_interval_part(ctx, &mut res);
         return res;
     }
     if spec.arg["stalled"].as_bool() == Some(true) {
@@ -979,7 +1087,7 @@ fn main() {
     driver::main(CheckDef {
         prop: "C10",
         level: "model_checking",
-        rule: "E1: every SC interleaving (pb-bounded; 1 registry shard) of updater threads (increment / absolute / set / record through real handles) with a flusher thread driving the real State::flush + PayloadWriter, one initial and three final sequential flushes; every payload parsed by an independent DogStatsD parser; oracle: delta conservation, per-flush upper bound, zero discipline, most-recent gauge, histogram exactly-once, timestamp per documented mode; E3: every sequence (depth 5 quick / 7 thorough) over {flush, ci.increment(3), ci.increment(0), ci.increment(u64::MAX - 7), ca.absolute(next), a second counter of the same name with a label, gau.set, gau.increment, gau.decrement, his.record, 70 records at once} + 2 final flushes, sequentially, against an exact reference model of what each flush must send; E4: transports {unix stream, unixgram, udp} x modes x prefix/labels/distribution configurations through the real forwarder thread into real sockets (framing, one message per datagram/frame, timestamp), and a fault history on the stream transport (agent stalls, a payload larger than the socket buffer is cut short by the write timeout, agent resumes: every stream received is whole well-formed frames); distinct = distinct send sequences / received message sets",
+        rule: "E1: every SC interleaving (pb-bounded; 1 registry shard) of updater threads (increment / absolute / set / record through real handles) with a flusher thread driving the real State::flush + PayloadWriter, one initial and three final sequential flushes; every payload parsed by an independent DogStatsD parser; oracle: delta conservation, per-flush upper bound, zero discipline, most-recent gauge, histogram exactly-once, timestamp per documented mode; E3: every sequence (depth 5 quick / 7 thorough) over {flush, ci.increment(3), ci.increment(0), ci.increment(u64::MAX - 7), ca.absolute(next), a second counter of the same name with a label, gau.set, gau.increment, gau.decrement, his.record, 70 records at once} + 2 final flushes, sequentially, against an exact reference model of what each flush must send; E4: transports {unix stream, unixgram, udp} x modes x prefix/labels/distribution configurations through the real forwarder thread into real sockets (framing, one message per datagram/frame, timestamp), and a fault history on the stream transport (agent stalls, a payload larger than the socket buffer is cut short by the write timeout, agent resumes: every stream received is whole well-formed frames), and a flush interval of 1 ms against 170 metrics updated in bursts (everything adds up at the agent); distinct = distinct send sequences / received message sets",
         assumptions: &["E1: sequential consistency; the flush is driven synchronously (Driver::flush_once) instead of by the sleeping forwarder thread", "E4: the forwarder thread's flush cadence is timing-driven (40 ms); only framing/content/timestamps are judged there, with a 20 s timeout reported as a violation of 'the agent socket receives these messages'"],
         parts,
         run,
